@@ -1,31 +1,19 @@
-(* The input forms of cp_mode_dot / cp_flip_sign (CPTensor object vs plain tuple, weights None): what holds, what fails. *)
+(* The input forms of cp_mode_dot / cp_flip_sign (CPTensor object vs plain tuple, weights None) on the repaired tree:
+   every form reduces to the core function applied to the given weights, or to ones when the weights are None. *)
 From Coq Require Import List Arith Lia Bool ZArith.
 From TLV Require Import Base.Shape Base.PyList Base.Tensor Base.BigSum Base.Ops Model.Transforms.
 Import ListNotations.
 
-(* proofs *)
-Lemma cp_mode_dot_api_class {F} (Op : fops F) (copy : bool) (w : list F) (fs : list (mat F)) (x : operand) (mode : nat) (kd : bool) :
-  cp_mode_dot_api Op true copy (Some w) fs x mode kd = cp_mode_dot Op w fs x mode kd.
+Lemma cp_mode_dot_api_all {F} (Op : fops F) (is_class copy : bool) (w : option (list F)) (fs : list (mat F)) (x : operand)
+  (mode : nat) (kd : bool) :
+  cp_mode_dot_api Op is_class copy w fs x mode kd = cp_mode_dot Op (weights_or_ones Op w fs) fs x mode kd.
 Proof. reflexivity. Qed.
-Lemma cp_mode_dot_api_ok {F} (Op : fops F) (is_class copy : bool) (w : list F) (fs : list (mat F)) (x : operand) (mode : nat) (kd : bool) :
-  is_class = true \/ copy = true ->
-  cp_mode_dot_api Op is_class copy (Some w) fs x mode kd = cp_mode_dot Op w fs x mode kd.
-Proof. intros [H | H]; subst; [reflexivity | destruct is_class; reflexivity]. Qed.
-Lemma cp_mode_dot_api_tuple_refuted :
-  exists (w : list Z) (fs : list (mat Z)) (M : mat Z) r,
-    cp_mode_dot Zops w fs (OpMat M) 0 false = Ok r /\
-    cp_mode_dot_api Zops false false (Some w) fs (OpMat M) 0 false = Err.
-Proof. exists [2; -1]%Z, [[[1; 2]; [3; 4]]; [[5; 6]]]%Z, [[1; 1]]%Z. eexists. split; vm_compute; reflexivity. Qed.
-Lemma cp_mode_dot_api_none_refuted :
-  exists (fs : list (mat Z)) (M : mat Z) r,
-    cp_mode_dot_api Zops true true None fs (OpMat M) 0 false = Ok r /\
-    cp_mode_dot_api Zops false true None fs (OpMat M) 0 false = Err.
-Proof. exists [[[1; 2]; [3; 4]]; [[5; 6]]]%Z, [[1; 1]]%Z. eexists. split; vm_compute; reflexivity. Qed.
-Lemma cp_flip_sign_api_some {F} (Op : fops F) (is_class : bool) (summ : list F -> F) (w : list F) (fs : list (mat F)) (mode : nat) :
-  cp_flip_sign_api Op is_class summ (Some w) fs mode = cp_flip_sign Op summ w fs mode.
+Lemma cp_flip_sign_api_all {F} (Op : fops F) (is_class : bool) (summ : list F -> F) (w : option (list F)) (fs : list (mat F)) (mode : nat) :
+  cp_flip_sign_api Op is_class summ w fs mode = cp_flip_sign Op summ (weights_or_ones Op w fs) fs mode.
 Proof. reflexivity. Qed.
-Lemma cp_flip_sign_api_none_refuted :
-  exists (fs : list (mat Z)) r,
-    cp_flip_sign_api Zops true (col_sum Zops) None fs 0 = Ok r /\
-    cp_flip_sign_api Zops false (col_sum Zops) None fs 0 = Err.
-Proof. exists [[[1; -2]; [3; -4]]; [[-5; 6]]]%Z. eexists. split; vm_compute; reflexivity. Qed.
+(* the forms agree with each other: same answer for an object and a tuple, with and without copy *)
+Lemma cp_mode_dot_api_form_independent {F} (Op : fops F) (c1 c2 p1 p2 : bool) w fs x mode kd :
+  cp_mode_dot_api Op c1 p1 w fs x mode kd = cp_mode_dot_api Op c2 p2 w fs x mode kd.
+Proof. reflexivity. Qed.
+Lemma weights_or_ones_length {F} (Op : fops F) (fs : list (mat F)) : length (weights_or_ones Op None fs) = cp_rank fs.
+Proof. apply repeat_length. Qed.
